@@ -152,3 +152,30 @@ def build_many(pairs):
     with ThreadPoolExecutor(16) as ex:
         outs = list(ex.map(lambda p: harness(*p), pairs))
     return dict(zip(pairs, outs))
+
+
+def fuzz_target(name):
+    """Build harness/fuzz/<name>.cpp as a libFuzzer binary against the clang `fuzz` variant of asl."""
+    d = lib('fuzz')
+    src = os.path.join(ROOT, 'harness', 'fuzz', name + '.cpp')
+    h = hashlib.sha256()
+    for p in [src] + sorted(glob.glob(os.path.join(ROOT, 'harness', 'common', '*'))):
+        with open(p, 'rb') as fh:
+            h.update(fh.read())
+    out = os.path.join(d, '%s-%s' % (name, h.hexdigest()[:12]))
+    if os.path.exists(out):
+        return out
+    lk = _lock(os.path.join(d, name + '.lock'))
+    try:
+        if os.path.exists(out):
+            return out
+        for old in glob.glob(os.path.join(d, name + '-*')):
+            os.unlink(old)
+        cc, cf, lf = VARIANTS['fuzz']
+        cf = [f.replace('fuzzer-no-link', 'fuzzer') for f in cf]
+        tmp = out + '.tmp%d' % os.getpid()
+        _run([cc] + cf + COMMON + ['-I', os.path.join(REPO, 'include'), '-I', os.path.join(ROOT, 'harness'), src, os.path.join(d, 'libasl.a'), '-o', tmp, '-lpthread', '-ldl', '-lm'])
+        os.rename(tmp, out)
+        return out
+    finally:
+        lk.close()
